@@ -31,7 +31,8 @@ ALL_HASHES = ("bcrypt,bcrypt_a,bcrypt_x,bcrypt_y,bigcrypt,bsdicrypt,descrypt,"
               "gost_yescrypt,md5crypt,nt,scrypt,sha1crypt,sha256crypt,"
               "sha512crypt,sunmd5,yescrypt").split(",")
 
-WRAPS = "malloc,calloc,posix_memalign,aligned_alloc,realloc,free,mmap,munmap,arc4random_buf,explicit_bzero".split(",")
+WRAPS = ("malloc,calloc,posix_memalign,aligned_alloc,realloc,free,mmap,munmap,arc4random_buf,explicit_bzero,"
+         "setlocale,strtok,l64a,localeconv,rand").split(",")
 
 FLAVOURS = {
     # name: (cc, cflags, ldflags)
@@ -53,6 +54,10 @@ FLAVOURS = {
     "v2": ("gcc", "-O2 -g -march=x86-64-v2", ""),
     # what distributions moving to x86-64-v3 ship (AVX2, BMI1/2: __BMI__, __AVX2__ select other code)
     "v3": ("gcc", "-O2 -g -march=x86-64-v3", ""),
+    "v4": ("gcc", "-O2 -g -march=x86-64-v4", ""),
+    # how distributions build: the *_chk variants of the string functions abort when the stated bound exceeds the
+    # real size of the destination
+    "fortify": ("gcc", "-O2 -g -D_FORTIFY_SOURCE=2", ""),      # AVX-512 (F, BW, CD, DQ, VL)
     "so-ndebug": ("gcc", "-O2 -g -fPIC -DPIC -DNDEBUG", ""),
     "so-uchar": ("gcc", "-O2 -g -fPIC -DPIC -funsigned-char", ""),
     "so-asan": ("gcc", "-O1 -g -fno-omit-frame-pointer -fPIC -DPIC "
